@@ -6,7 +6,7 @@ Mirrors harness/persist.c (same event words, same request packets, same canonica
 namespace Coap.Driver.Persist
 open Coap Coap.Persist Coap.Persist.Op Coap.Persist.Name
 
-def resNames : List Bytes := ["a", "bb", "dyn/c", "a0", "sensors/temp/1", "p.q"].map fun (s : String) => s.toUTF8.toList
+def resNames : List Bytes := ["a", "bb", "dyn/c", "a0", "sensors/temp/1", ""].map fun (s : String) => s.toUTF8.toList
 def nRes : Nat := 6
 def nCli : Nat := 3
 
@@ -18,6 +18,7 @@ def idxOf (nm : Bytes) : Int :=
 
 /-- the request datagram harness/persist.c builds: NON, token, [Observe], Uri-Path segments, [payload] -/
 def splitSlash (bs : Bytes) : List Bytes :=
+  if bs.isEmpty then [] else
   (bs.foldr (fun b (acc : List Bytes) => if b = 47 then [] :: acc else
       match acc with
       | [] => [[b]]
